@@ -8,10 +8,25 @@ use std::net::{IpAddr, Ipv4Addr};
 
 pub mod c01;
 pub mod c02;
+pub mod c03;
+pub mod c04;
+pub mod c05;
+pub mod c06;
+pub mod c07;
+pub mod c08;
 
 pub const SERVER_IP: IpAddr = IpAddr::V4(Ipv4Addr::new(192, 0, 2, 10));
 
-pub fn all() -> Vec<Box<dyn Prop>> { vec![Box::new(c01::C01), Box::new(c02::C02)] }
+pub fn all() -> Vec<Box<dyn Prop>> { vec![
+        Box::new(c01::C01),
+        Box::new(c02::C02),
+        Box::new(c03::C03),
+        Box::new(c04::C04),
+        Box::new(c05::C05),
+        Box::new(c06::C06),
+        Box::new(c07::C07),
+        Box::new(c08::C08),
+    ] }
 
 pub fn find(id: &str) -> Option<Box<dyn Prop>> { all().into_iter().find(|p| p.id() == id) }
 
@@ -45,6 +60,60 @@ pub fn crash_violation(prefix: &str, crash: &Crash) -> Violation {
         "the query returns Ok or Err",
         crash.describe(),
     )
+}
+
+/// A scenario of a decode property, ready to run.
+pub struct Built {
+    pub call: Call,
+    pub world: crate::world::World,
+    pub expected: Value,
+    pub family: String,
+    /// canonicalise (expected, observed) before comparing: what the property leaves open
+    pub normalise: Option<fn(&mut Value, &mut Value)>,
+    pub detail: Value,
+}
+
+/// Run a built decode scenario and judge it. Returns the run for further use.
+pub fn run_built(out: &mut CaseOut, b: Built, what: &str, detail: bool) -> RunOut {
+    let Built { call, world, mut expected, family, normalise, detail: d } = b;
+    let run = crate::harness::run_call(world, &call);
+    let truncated = run.world.hist.iter().any(|h| matches!(h, crate::world::Hist::UdpRecv { len, full_len, .. } if len < full_len));
+    let mut tmp = CaseOut::default();
+    compare_norm(&mut tmp, &family, what, &mut expected, &run, normalise);
+    for mut v in tmp.violations {
+        if family.ends_with("-vars") && v.signature.starts_with(&format!("{family}|/")) {
+            v.signature = format!("{family}|/{{}}");
+        }
+        if truncated {
+            v.what = format!("{} (a reply datagram was longer than the client's receive buffer and was truncated)", v.what);
+            v.signature = format!("{family}|reply-exceeds-receive-buffer");
+        }
+        out.violate(v);
+    }
+    out.absorb(&run.world);
+    out.distinct_key = out.log_hash;
+    if detail {
+        out.sample = Some(json!({"call": describe_call(&call), "scenario": d, "result": describe_result(&run.result, &run.crash)}));
+        out.schedule = run.world.render_history(200);
+    }
+    run
+}
+
+pub fn compare_norm(out: &mut CaseOut, sig_prefix: &str, what: &str, expected: &mut Value, run: &RunOut, norm: Option<fn(&mut Value, &mut Value)>) {
+    if let (Some(Ok(r)), Some(n)) = (&run.result, norm) {
+        let mut obs = r.to_json();
+        n(expected, &mut obs);
+        if let Some((path, e, o)) = json_diff(expected, &obs) {
+            out.violate(Violation::new(
+                format!("{sig_prefix}|{}", path_class(&path)),
+                format!("{what}: field {path} differs from what the server sent"),
+                e,
+                o,
+            ));
+        }
+        return;
+    }
+    compare(out, sig_prefix, what, expected, run);
 }
 
 /// Compare an observed response with the model's expectation.
